@@ -65,7 +65,8 @@ BAD_CONSTRAINTS = {
     "constraint-undeclared-variable": 'x = "a"',
     "constraint-smt-sort-error": 'exists <d> x: (x + 1) = 2',
     "constraint-empty": '',
-    "constraint-const-declaration": 'const x: <d>; x = "a"',
+    # ('const x: <d>; x = "a"' was listed here while every const declaration crashed parse_isla
+    #  (F26); it is a well-formed constraint, see DESIGN.md 11.2)
 }
 
 
